@@ -129,6 +129,10 @@ func (pf *ProofFac) Verify(Session []byte, ec elliptic.Curve, N0, NCap, s, t *bi
 	if N0.Sign() != 1 {
 		return false
 	}
+	if NCap.Sign() != 1 {
+		// with a modulus of 0 the exponentiations below are not reduced and do not terminate for large exponents
+		return false
+	}
 
 	q := ec.Params().N
 	q3 := new(big.Int).Mul(q, q)
